@@ -140,7 +140,8 @@ def t_callshape(rng: random.Random, u: str, hostile: bool = False) -> Unit:
     for i in range(npos):
         params.append((f"p{i}", rng.choice(tys), None, "pos"))
     for i in range(ndef):
-        t = rng.choice(["int", "str", "float", "bool", "Optional[int]", "tuple[int, str]", "i64"])
+        # (an i64 default combined with a required keyword-only parameter crashes mypyc itself: get_text_signature)
+        t = rng.choice(["int", "str", "float", "bool", "Optional[int]", "tuple[int, str]"] + (["i64"] if not nkw or all(kwdef) else []))
         params.append((f"d{i}", t, lit(t, rng, True), "pos"))
     if star:
         params.append(("rest", "int", None, "star"))
@@ -396,9 +397,8 @@ def t_dunder(rng: random.Random, u: str, hostile: bool = False) -> Unit:
            "    def __setitem__(self, i: int, v: int) -> None:", "        self.xs[i] = v", "",
            "    def __contains__(self, v: int) -> bool:", "        return v in self.xs", "",
            "    def __bool__(self) -> bool:", "        return len(self.xs) > 1", "",
-           f"    def __iter__(self) -> '{C}':", "        self.i = 0", "        return self", "",
-           "    def __next__(self) -> int:", "        if self.i >= len(self.xs):", "            raise StopIteration",
-           "        self.i += 1", "        return self.xs[self.i - 1]", "",
+           # (a native __next__ returning an unboxed type is rejected by the C compiler: tp_iternext gets the native function)
+           "    def __iter__(self) -> Iterator[int]:", "        self.i += 1", "        return iter(self.xs)", "",
            "    def __call__(self, k: int, s: str = 'd') -> str:", "        return s + str(k + len(self.xs))", "",
            f"    def __add__(self, o: '{C}') -> '{C}':", f"        return {C}(self.xs + o.xs)", "",
            f"    def __iadd__(self, o: '{C}') -> '{C}':", "        self.xs = self.xs + o.xs", "        return self", "",
